@@ -11,6 +11,7 @@ namespace std { template<int B> inline vf::Sym<B> sqrt(const vf::Sym<B>& a) { re
 #include "simd_sym.h"
 #include "hutil.h"
 #include "tensor_arena.h"
+#include "reduce_depth.h"
 #ifndef CFGNAME
 #define CFGNAME "sse2"
 #endif
@@ -88,6 +89,13 @@ void run_reduce(const char* enc, F f) {
                                         : choose_best_simd_vector_t<T>::Size;
         std::printf(" | V=%zu VAL=%s", V, hex16(digest1(r.poly())).c_str());
         print_obs(o);
+#ifdef FASTOR_AVX512_IMPL
+        const bool a512 = true;
+#else
+        const bool a512 = false;
+#endif
+        if (!((K == TSUM || K == TPROD) && N <= 1))
+            std::printf(" DEPTH=%zu", vfdepth::depth(K == NORM ? (plain ? vfdepth::NORM_TENSOR : vfdepth::NORM_EXPR) : vfdepth::SUM, N, V, a512));
         std::printf(" OOB=%ld ORACLE=%s", o.oob, ok ? "ok" : "FAIL");
         if (!ok) std::printf(" got=%s", vf::pstr(r.poly()).substr(0, 300).c_str());
         std::printf("\n");
@@ -119,7 +127,7 @@ void run_inner() {
         }
         bool ok = want.p == r.poly();
         size_t V = internal::choose_best_simd_type<SIMDVector<T,DEFAULT_ABI>,N>::type::Size;
-        std::printf(" | V=%zu VAL=%s", V, hex16(digest1(r.poly())).c_str());
+        std::printf(" | V=%zu VAL=%s DEPTH=%zu", V, hex16(digest1(r.poly())).c_str(), vfdepth::depth(vfdepth::INNER, N, V, false));
         if (MODE == 0) print_obs(o);
         std::printf(" OOB=%ld ORACLE=%s", o.oob, ok ? "ok" : "FAIL");
         if (!ok) std::printf(" got=%s", vf::pstr(r.poly()).substr(0, 300).c_str());
